@@ -638,7 +638,7 @@ def random_multilevel_case(rng, max_heavy, nlevels=None, coarse_last=False):
         feats.add('squash_at_two_levels')
     # the same fragment name may be defined at several levels with different content (a bead named like its parent)
     if rng.random() < 0.35:
-        lower = re.findall(r'#(F\d+)=', base_case['frag_string'])
+        lower = sorted(set(re.findall(r'#(F\d+)=', base_case['frag_string'])))   # a decoy second definition repeats a name
         upper = [name for b in blocks for name in b]
         rng.shuffle(upper)
         rng.shuffle(lower)
@@ -654,8 +654,14 @@ def random_multilevel_case(rng, max_heavy, nlevels=None, coarse_last=False):
 # ---------------------------------------------------------------------------------------------
 # coarse last level
 
+ION_STYLE_NAMES = ['NA+', 'CL-', "C1'", 'N-ter', 'CO-', "C5'"]
+
+
 def random_coarse_cut_case(rng, n):
-    g = M.gen_coarse_graph(rng, n)
+    # bead names as force fields have them for ions, termini and nucleotides (+ - ') in one case out of four
+    ion_names = rng.random() < 0.25
+    g = M.gen_coarse_graph(rng, n, names=M.CG_NAMES + ION_STYLE_NAMES * 2) if ion_names else M.gen_coarse_graph(rng, n)
+    ion_names = ion_names and any(d['name'] in ION_STYLE_NAMES for _, d in g.nodes(data=True))
     nparts = rng.randint(1, min(n, 5))
     part = M.partition(rng, g, k=nparts)
     labels = M.label_pool(rng)
@@ -699,7 +705,8 @@ def random_coarse_cut_case(rng, n):
                 ctor='string', coarse=True,
                 truth={'nodes': [[x, d['name']] for x, d in g.nodes(data=True)],
                        'edges': [[a, b, d['order']] for a, b, d in g.edges(data=True)]},
-                features=sorted({'coarse_last'} | ({'base_order_ge2'} if any(v >= 2 for v in cutcount.values()) else set())),
+                features=sorted({'coarse_last'} | ({'base_order_ge2'} if any(v >= 2 for v in cutcount.values()) else set())
+                                | ({'ion_style_bead_names'} if ion_names else set())),
                 nheavy=n, nfrag=nparts, ncuts=sum(cutcount.values()))
 
 
@@ -772,12 +779,63 @@ def resolver_workload(rng, n, max_heavy=(3, 6, 10, 16)):
             case = random_coarse_cut_case(rng, rng.randint(2, 12))
         elif r < 0.78:
             case = random_marked_cut_case(rng)
+        elif r < 0.82:
+            case = random_periodic_case(rng)
         else:
             case = ambig.random_case(rng)
         if case is None:
             continue
         made += 1
         yield case
+
+
+# ---------------------------------------------------------------------------------------------
+# periodic copolymers: the SAME fragment names recur along a chain, every junction type has its own label
+
+PERIODIC_BODIES = ['C{l}C{r}', 'C{l}(C)C{r}', 'O{l}CC{r}', 'c1{l}ccc{r}cc1', 'C{l}(=O)N{r}', 'C{l}{r}', 'N{l}(C)C{r}', 'C{l}(F)C{r}(Cl)',
+                   'C{l}C(C{r})O', 'C{l}C=CC{r}']
+
+
+def random_periodic_case(rng):
+    """A linear chain whose units repeat with period 3-5 (A B C A B C ...): the same ordered pair of fragment names occurs
+    on several base edges, each unit carries one dedicated descriptor per neighbour, junction labels are unique per
+    junction type.  Optionally ONE base edge asks for a bond more than its two units have descriptors for; that surplus
+    is tolerated and must stay local: every other base edge still gets exactly its own bonds."""
+    period = rng.randint(3, 5)
+    n = rng.randint(period + 1, 4 * period)
+    names = rng.sample(['A', 'B', 'C', 'D', 'PEO', 'PS', 'X1', 'mon'], period) if rng.random() < 0.5 else ['F%d' % i for i in range(period)]
+    labels = ['j%d' % i if rng.random() < 0.7 else 'ABCDEFG'[i] for i in range(period)]
+    kinds = [rng.choice(['$', '$', '><']) for _ in range(period)]
+    bodies = [rng.choice(PERIODIC_BODIES) for _ in range(period)]
+    frs = {}
+    for i in range(period):
+        left_j, right_j = (i - 1) % period, i
+        l = '[%s%s]' % ('$' if kinds[left_j] == '$' else '<', labels[left_j])
+        r = '[%s%s]' % ('$' if kinds[right_j] == '$' else '>', labels[right_j])
+        frs[names[i]] = bodies[i].format(l=l, r=r)
+    base = nx.Graph()
+    for i in range(n):
+        base.add_node(i, fragname=names[i % period])
+    for i in range(n - 1):
+        base.add_edge(i, i + 1, order=1)
+    feats = {'periodic_copolymer', 'same_name_pair_on_several_base_edges', 'ctor_string'}
+    if rng.random() < 0.6:
+        i = rng.randrange(0, max(1, n - period - 1))
+        base.edges[i, i + 1]['order'] = 2
+        feats.add('surplus_edge_order')
+    ast, pre = M.base_to_ast(rng, base)
+    items = list(frs.items())
+    rng.shuffle(items)
+    nodes = list(base.nodes)
+    rng.shuffle(nodes)
+    ctor = rng.choice(['string', 'string', 'from_graph', 'from_fragment_dicts'])
+    feats.discard('ctor_string')
+    feats.add('ctor_' + ctor)
+    return dict(kind='cut', ctor=ctor, base_ast=ast, base_string=G.to_string(ast), base_order=pre,
+                frag_string='{' + ','.join('#%s=%s' % kv for kv in items) + '}',
+                base_graph={'nodes': [[x, base.nodes[x]['fragname']] for x in nodes],
+                            'edges': [[a, b, d['order']] for a, b, d in base.edges(data=True)]},
+                features=sorted(feats), nheavy=n * 3, nfrag=n, ncuts=n - 1)
 
 
 EXPECTED_REJECTION = 'Likely you are writing an aromatic molecule'
